@@ -2,88 +2,157 @@ import CollectionsC.Proofs.HashTableLedger
 import CollectionsC.Proofs.HashSetLedger
 /-! # C14 (hash table / hash set part) — only the configured allocators
 
-In the model every allocation is `Mem.alloc` and every release `Mem.free` on the configured triple;
-`Mem.libc` counts events on the C library allocator.  `libc_invariant`: no call changes it — the
-constructor, every table/set operation including every resize, the iterators, `get_keys`/`get_values`
-(whose `CC_Array` is built with the *table's* triple) and the arrays' own `add`/`destroy`, the set
-wrapper's header.  `allocator_independent`: results depend on the ledger only through the allocator's
-answers (`Mem.sched`): a table on a pool behaves exactly like one on malloc as long as the pool does
-not refuse.  No invariant is needed; every hash function, key and schedule. -/
+A table stores the allocator triple it was given (`t.triple`: `.conf` by `cc_hashtable_new_conf` with
+the caller's functions, `.libc` by `cc_hashtable_new`); every allocation and release of the model goes
+through `Mem.allocT t.triple` / `Mem.freeT t.triple` exactly where the C code calls
+`table->mem_alloc/mem_calloc/mem_free`, the arrays of `get_keys/get_values` receive **the table's**
+triple (the C code copies the three pointers into the `CC_ArrayConf`; had it called
+`cc_array_new` the model would say `.libc` and `conf_uses_only_conf` would be false), the set header
+and its table share one triple.
+
+* `conf_uses_only_conf`: on a `.conf` container no operation moves any C-library counter
+  (`libc`, `liveLibc`, `lalloc`, `lfree`).
+* `default_uses_only_libc`: on a `.libc` container no operation moves `live/nalloc/nfree`, consumes
+  the refusal schedule or can be refused.
+* `derived_inherits_triple`, `allocator_independent` (results depend on the ledger only through the
+  schedule — a table on a pool behaves like one on malloc as long as the pool does not refuse).
+No invariant is needed; every hash function, key and schedule. -/
 namespace CC.Properties.C14Hash
 open CC CC.HT CC.Spec
 open CC.Spec.Map (Op Out)
 
-theorem new_libc_invariant (c : HCfg) (cap : Nat) (m : Mem) : (HashTable.new c cap m).2.2.libc = m.libc :=
-  HashTable.new_libc c cap m
-theorem destroy_libc_invariant (t : HashTable) (m : Mem) : (t.destroy m).libc = m.libc := HashTable.destroy_libc t m
-/-- every call of the table API (add with all its resizes, get, contains_key, remove, remove_all) -/
-theorem libc_invariant (c : HCfg) (t : HashTable) (op : Op) (m : Mem) : (t.step c op m).2.2.libc = m.libc :=
-  HashTable.step_libc c t op m
-theorem history_libc_invariant (c : HCfg) (ops : List Op) (t : HashTable) (m : Mem) :
-    (t.run c ops m).2.2.2.libc = m.libc := HashTable.run_libc c ops t m
-/-- iterator calls -/
-theorem iter_libc_invariant (c : HCfg) (t : HashTable) (it : HIter) (m : Mem) :
-    (t.iterInit m).2.libc = m.libc ∧ (t.iterNext it m).2.2.2.libc = m.libc ∧ (t.iterRemove c it m).2.2.2.libc = m.libc :=
-  ⟨(HashTable.iter_libc t it m).1, (HashTable.iter_libc t it m).2, HashTable.iterRemove_libc c t it m⟩
+/-- the counters of the *other* allocator are untouched by every call of the table API, whatever the
+table's triple (add with all its resizes, get, contains_key, remove, remove_all) -/
+theorem other_allocator_untouched (c : HCfg) (t : HashTable) (op : Op) (m : Mem) :
+    otherOf t.triple (t.step c op m).2.2 = otherOf t.triple m ∧ (t.step c op m).2.1.triple = t.triple :=
+  ⟨HashTable.step_other c t op m, HashTable.step_triple c t op m⟩
+
+/-- **conf_uses_only_conf**, per call -/
+theorem conf_uses_only_conf (c : HCfg) (t : HashTable) (op : Op) (m : Mem) (ht : t.triple = .conf) :
+    (t.step c op m).2.2.libc = m.libc ∧ (t.step c op m).2.2.liveLibc = m.liveLibc ∧
+    (t.step c op m).2.2.lalloc = m.lalloc ∧ (t.step c op m).2.2.lfree = m.lfree := by
+  have := HashTable.step_other c t op m
+  rw [ht] at this; exact otherOf_conf this
+
+/-- … for whole histories, the constructor, the destructor, iterator calls and the builders -/
+theorem history_conf_uses_only_conf (c : HCfg) (ops : List Op) (t : HashTable) (m : Mem) (ht : t.triple = .conf) :
+    (t.run c ops m).2.2.2.libc = m.libc ∧ (t.run c ops m).2.2.2.liveLibc = m.liveLibc ∧
+    (t.run c ops m).2.2.2.lalloc = m.lalloc ∧ (t.run c ops m).2.2.2.lfree = m.lfree := by
+  have := HashTable.run_other c ops t m
+  rw [ht] at this; exact otherOf_conf this
+
+theorem lifecycle_conf_uses_only_conf (c : HCfg) (cap : Nat) (t : HashTable) (it : HIter) (m : Mem) (ht : t.triple = .conf) :
+    (HashTable.new c cap .conf m).2.2.libc = m.libc ∧ (HashTable.new c cap .conf m).2.2.liveLibc = m.liveLibc ∧
+    (t.destroy m).libc = m.libc ∧ (t.destroy m).liveLibc = m.liveLibc ∧
+    (t.iterNext it m).2.2.2.libc = m.libc ∧ (t.iterRemove c it m).2.2.2.2.libc = m.libc ∧
+    (t.iterRemove c it m).2.2.2.2.liveLibc = m.liveLibc := by
+  have h1 := otherOf_conf (HashTable.new_other c cap .conf m)
+  have h2 := HashTable.destroy_other t m
+  have h3 := (HashTable.iter_other .conf t it m).2
+  have h4 := HashTable.iterRemove_other c t it m
+  rw [ht] at h2 h4
+  exact ⟨h1.1, h1.2.1, (otherOf_conf h2).1, (otherOf_conf h2).2.1, (otherOf_conf h3).1, (otherOf_conf h4).1, (otherOf_conf h4).2.1⟩
+
 /-- the derived arrays (`mk_keys`/`mk_values`) are built with the table's triple, whatever happens
-(success, refusal of either block, empty table), and so are their later growth and destruction -/
-theorem builders_libc_invariant (c : HCfg) (t : HashTable) (m : Mem) :
-    (t.getKeys c m).2.2.libc = m.libc ∧ (t.getValues c m).2.2.libc = m.libc :=
-  ⟨HashTable.getKeys_libc c t m, HashTable.getValues_libc c t m⟩
-theorem derived_array_libc_invariant (c : HCfg) (a : DArr) (x : Nat) (m : Mem) :
-    (a.add c x m).2.2.libc = m.libc ∧ (a.destroy m).libc = m.libc := ⟨DArr.add_libc c a x m, DArr.destroy_libc a m⟩
+(success, refusal of either block, empty table) -/
+theorem builders_conf_use_only_conf (c : HCfg) (t : HashTable) (m : Mem) (ht : t.triple = .conf) :
+    (t.getKeys c m).2.2.libc = m.libc ∧ (t.getKeys c m).2.2.liveLibc = m.liveLibc ∧
+    (t.getValues c m).2.2.libc = m.libc ∧ (t.getValues c m).2.2.liveLibc = m.liveLibc := by
+  have h1 := HashTable.getKeys_other c t m
+  have h2 := HashTable.getValues_other c t m
+  rw [ht] at h1 h2
+  exact ⟨(otherOf_conf h1).1, (otherOf_conf h1).2.1, (otherOf_conf h2).1, (otherOf_conf h2).2.1⟩
+
+/-- **derived_inherits_triple**: the array handed out carries the table's triple, and its own later
+growth and destruction go through it -/
+theorem derived_inherits_triple (c : HCfg) (t : HashTable) (m m' : Mem) (a : DArr) (x : Nat)
+    (h : (t.getKeys c m).2.1 = some a ∨ (t.getValues c m).2.1 = some a) :
+    a.triple = t.triple ∧ otherOf t.triple (a.add c x m').2.2 = otherOf t.triple m' ∧
+    otherOf t.triple (a.destroy m') = otherOf t.triple m' ∧ (a.add c x m').2.1.triple = t.triple := by
+  have ha : a.triple = t.triple := by
+    rcases h with h | h
+    · exact HashTable.collect_triple c t _ m a h
+    · exact HashTable.collect_triple c t _ m a h
+  have h1 := DArr.add_other c a x m'
+  have h2 := DArr.destroy_other a m'
+  have h3 := DArr.add_triple c a x m'
+  rw [ha] at h1 h2 h3
+  exact ⟨ha, h1, h2, h3⟩
+
+/-- **default_uses_only_libc**: a table built by `cc_hashtable_new` never touches the configured
+allocator's counters or its refusal schedule, and cannot be refused an allocation -/
+theorem default_uses_only_libc (c : HCfg) (t : HashTable) (op : Op) (m : Mem) (ht : t.triple = .libc) :
+    (t.step c op m).2.2.live = m.live ∧ (t.step c op m).2.2.nalloc = m.nalloc ∧ (t.step c op m).2.2.nfree = m.nfree ∧
+    (t.step c op m).2.2.nrefused = m.nrefused ∧ (t.step c op m).2.2.sched = m.sched ∧
+    (t.step c op m).1.st ≠ some .errAlloc := by
+  have := HashTable.step_other c t op m
+  rw [ht] at this
+  obtain ⟨a, b, c', d, e⟩ := otherOf_libc this
+  exact ⟨a, b, c', d, e, HashTable.libc_never_refused c t op m ht⟩
+
+theorem history_default_uses_only_libc (c : HCfg) (ops : List Op) (t : HashTable) (m : Mem) (ht : t.triple = .libc) :
+    (t.run c ops m).2.2.2.live = m.live ∧ (t.run c ops m).2.2.2.nalloc = m.nalloc ∧
+    (t.run c ops m).2.2.2.nfree = m.nfree ∧ (t.run c ops m).2.2.2.sched = m.sched := by
+  have := HashTable.run_other c ops t m
+  rw [ht] at this
+  obtain ⟨a, b, c', _, e⟩ := otherOf_libc this
+  exact ⟨a, b, c', e⟩
+
+/-- the default constructor builds a `.libc` table, `new_conf` a `.conf` one, and both count their
+two blocks on their own allocator -/
+theorem constructors_set_triple (c : HCfg) (cap : Nat) (tr : Triple) (m : Mem) (t : HashTable)
+    (h : (HashTable.new c cap tr m).2.1 = some t) : t.triple = tr ∧ otherOf tr (HashTable.new c cap tr m).2.2 = otherOf tr m := by
+  refine ⟨?_, HashTable.new_other c cap tr m⟩
+  unfold HashTable.new at h; simp only at h
+  split at h
+  · cases h
+  · split at h
+    · cases h
+    · simp only [Option.some.injEq] at h; rw [← h]
 
 /-- two ledgers with the same schedule give the same status, out-value and table -/
 theorem allocator_independent (c : HCfg) (t : HashTable) (op : Op) (m m' : Mem) (h : m.sched = m'.sched) :
     (t.step c op m).1 = (t.step c op m').1 ∧ (t.step c op m).2.1 = (t.step c op m').2.1 ∧
     (t.step c op m).2.2.sched = (t.step c op m').2.2.sched := HashTable.step_congr c t op m m' h
-theorem new_allocator_independent (c : HCfg) (cap : Nat) (m m' : Mem) (h : m.sched = m'.sched) :
-    (HashTable.new c cap m).1 = (HashTable.new c cap m').1 ∧ (HashTable.new c cap m).2.1 = (HashTable.new c cap m').2.1 :=
-  ⟨(HashTable.new_congr c cap m m' h).1, (HashTable.new_congr c cap m m' h).2.1⟩
+theorem new_allocator_independent (c : HCfg) (cap : Nat) (tr : Triple) (m m' : Mem) (h : m.sched = m'.sched) :
+    (HashTable.new c cap tr m).1 = (HashTable.new c cap tr m').1 ∧ (HashTable.new c cap tr m).2.1 = (HashTable.new c cap tr m').2.1 :=
+  ⟨(HashTable.new_congr c cap tr m m' h).1, (HashTable.new_congr c cap tr m m' h).2.1⟩
 /-- a whole history gives the same outputs, the same failures and the same final table -/
 theorem history_allocator_independent (c : HCfg) (ops : List Op) (t : HashTable) (m m' : Mem) (h : m.sched = m'.sched) :
     (t.run c ops m).1 = (t.run c ops m').1 ∧ (t.run c ops m).2.1 = (t.run c ops m').2.1 ∧
     (t.run c ops m).2.2.1 = (t.run c ops m').2.2.1 := HashTable.run_congr c ops t m m' h
-/-- iterator `next` does not depend on the ledger at all -/
-theorem iter_allocator_independent (t : HashTable) (it : HIter) (m m' : Mem) :
-    (t.iterNext it m).1 = (t.iterNext it m').1 ∧ (t.iterNext it m).2.1 = (t.iterNext it m').2.1 ∧
-    (t.iterNext it m).2.2.1 = (t.iterNext it m').2.2.1 ∧ (t.iterInit m).1 = (t.iterInit m').1 := by
-  refine ⟨?_, ?_, ?_, ?_⟩
-  · unfold HashTable.iterNext; split
-    · rfl
-    · split
-      · rfl
-      · split
-        · rfl
-        · simp only; split <;> rfl
-  · unfold HashTable.iterNext; split
-    · rfl
-    · split
-      · rfl
-      · split
-        · rfl
-        · simp only; split <;> rfl
-  · unfold HashTable.iterNext; split
-    · rfl
-    · split
-      · rfl
-      · split
-        · rfl
-        · simp only; split <;> rfl
-  · unfold HashTable.iterInit; simp only; split <;> rfl
 
 /-! ## hash set (the header and the wrapped table go through the same triple) -/
 
-theorem set_new_libc_invariant (c : HCfg) (cap : Nat) (m : Mem) : (HashSet.new c cap m).2.2.libc = m.libc :=
-  HashSet.new_libc c cap m
-theorem set_destroy_libc_invariant (s : HashSet) (m : Mem) : (s.destroy m).libc = m.libc := HashSet.destroy_libc s m
-theorem set_libc_invariant (c : HCfg) (s : HashSet) (op : Set.Op) (m : Mem) : (s.step c op m).2.2.libc = m.libc :=
-  HashSet.step_libc c s op m
-theorem set_history_libc_invariant (c : HCfg) (ops : List Set.Op) (s : HashSet) (m : Mem) :
-    (s.run c ops m).2.2.2.libc = m.libc := HashSet.run_libc c ops s m
-theorem set_iter_libc_invariant (c : HCfg) (s : HashSet) (it : HIter) (m : Mem) :
-    (s.iterInit m).2.libc = m.libc ∧ (s.iterNext it m).2.2.2.libc = m.libc ∧ (s.iterRemove c it m).2.2.2.libc = m.libc :=
-  HashSet.iter_libc c s it m
+theorem set_conf_uses_only_conf (c : HCfg) (s : HashSet) (op : Set.Op) (m : Mem) (ht : s.table.triple = .conf) :
+    (s.step c op m).2.2.libc = m.libc ∧ (s.step c op m).2.2.liveLibc = m.liveLibc ∧
+    (s.step c op m).2.2.lalloc = m.lalloc ∧ (s.step c op m).2.2.lfree = m.lfree := by
+  have := HashSet.step_other c s op m
+  rw [ht] at this; exact otherOf_conf this
+theorem set_history_conf_uses_only_conf (c : HCfg) (ops : List Set.Op) (s : HashSet) (m : Mem) (ht : s.table.triple = .conf) :
+    (s.run c ops m).2.2.2.libc = m.libc ∧ (s.run c ops m).2.2.2.liveLibc = m.liveLibc := by
+  have := HashSet.run_other c ops s m
+  rw [ht] at this; exact ⟨(otherOf_conf this).1, (otherOf_conf this).2.1⟩
+theorem set_lifecycle_conf_uses_only_conf (c : HCfg) (cap : Nat) (s : HashSet) (m : Mem)
+    (ht : s.table.triple = s.triple) (hc : s.triple = .conf) :
+    (HashSet.new c cap .conf m).2.2.libc = m.libc ∧ (HashSet.new c cap .conf m).2.2.liveLibc = m.liveLibc ∧
+    (s.destroy m).libc = m.libc ∧ (s.destroy m).liveLibc = m.liveLibc := by
+  have h1 := otherOf_conf (HashSet.new_other c cap .conf m)
+  have h2 := HashSet.destroy_other s m ht
+  rw [hc] at h2
+  exact ⟨h1.1, h1.2.1, (otherOf_conf h2).1, (otherOf_conf h2).2.1⟩
+theorem set_default_uses_only_libc (c : HCfg) (s : HashSet) (op : Set.Op) (m : Mem) (ht : s.table.triple = .libc) :
+    (s.step c op m).2.2.live = m.live ∧ (s.step c op m).2.2.nalloc = m.nalloc ∧ (s.step c op m).2.2.nfree = m.nfree ∧
+    (s.step c op m).2.2.sched = m.sched := by
+  have := HashSet.step_other c s op m
+  rw [ht] at this
+  obtain ⟨a, b, c', _, e⟩ := otherOf_libc this
+  exact ⟨a, b, c', e⟩
+/-- the set constructor gives header and table the same triple -/
+theorem set_constructor_triple (c : HCfg) (cap : Nat) (tr : Triple) (m : Mem) (s : HashSet)
+    (h : (HashSet.new c cap tr m).2.1 = some s) : s.triple = tr ∧ s.table.triple = tr := by
+  obtain ⟨_, q2, _, _, q5⟩ := (HashSet.new_spec c cap tr m).2.2.1 s h
+  exact ⟨q5, by rw [q2.2.2, q5]⟩
 theorem set_allocator_independent (c : HCfg) (s : HashSet) (op : Set.Op) (m m' : Mem) (h : m.sched = m'.sched) :
     (s.step c op m).1 = (s.step c op m').1 ∧ (s.step c op m).2.1 = (s.step c op m').2.1 ∧
     (s.step c op m).2.2.sched = (s.step c op m').2.2.sched := HashSet.step_congr c s op m m' h
@@ -91,9 +160,18 @@ theorem set_history_allocator_independent (c : HCfg) (ops : List Set.Op) (s : Ha
     (s.run c ops m).1 = (s.run c ops m').1 ∧ (s.run c ops m).2.1 = (s.run c ops m').2.1 ∧
     (s.run c ops m).2.2.1 = (s.run c ops m').2.2.1 := HashSet.run_congr c ops s m m' h
 
-/-- non-vacuity: an insertion that resizes twice and allocates an entry, on a ledger with 5 earlier
-C-library events: still 5 -/
-example : ((HashTable.mk 1 0 0 [[]]).add ⟨fun k => k, fun cap => cap / 4, fun cap => cap * 2⟩ (some 5) 50
+/-! ## Non-vacuity: the two statements are falsifiable and true on concrete runs -/
+
+/-- a `.conf` table: an insertion that resizes twice and allocates an entry, on a ledger with 5 earlier
+C-library events: still 5, and no C-library block appears -/
+example : ((HashTable.mk 1 0 0 [[]] .conf).add ⟨fun k => k, fun cap => cap / 4, fun cap => cap * 2⟩ (some 5) 50
     { live := 2, libc := 5 }).2.2.libc = 5 := by decide
+/-- the same insertion on a `.libc` table: three C-library allocations, two releases, `live` untouched,
+and the refusal scheduled for the configured allocator is not consumed -/
+example : ((HashTable.mk 1 0 0 [[]] .libc).add ⟨fun k => k, fun cap => cap / 4, fun cap => cap * 2⟩ (some 5) 50
+    { live := 7, liveLibc := 2, sched := [true] }).2.2 =
+    { live := 7, liveLibc := 3, libc := 5, lalloc := 3, lfree := 2, sched := [true] } := by decide
+/-- and the key array of a `.libc` table is built on the C library too -/
+example : ((HashTable.mk 2 1 2 [[], [⟨some 1, 11, 7⟩]] .libc).getKeys ⟨fun _ => 7, fun c => c, fun c => c * 2⟩ { liveLibc := 3 }).2.2.liveLibc = 5 := by decide
 
 end CC.Properties.C14Hash
